@@ -111,7 +111,7 @@ def engine_cases(chk):
         targets.append(({"type": t}, {"type": rt, "id": "x", "attrs": {}}))
     for rdef, res in targets:
         for strict in (False, True):
-            for shape in ("single", "set", "nested"):
+            for shape in ("single", "set", "nested", "shadow"):
                 cases.append({"fam": "engine", "rdef": rdef, "resource": res, "strict": strict, "shape": shape})
     if chk.tier == "quick":
         cases = [c for i, c in enumerate(cases) if i % 2 == chk.seed % 2 or c["shape"] == "single"]
@@ -128,7 +128,12 @@ def run_engine_cases(cases):
         for c in cases:
             rule = {"id": "r", "effect": "permit", "actions": ["read"], "resource": c["rdef"]}
             pol = {"algorithm": "deny-overrides", "rules": [rule]}
-            if c["shape"] == "set":
+            if c["shape"] == "shadow":
+                # the rule under test DENIES, a wildcard rule permits: allowed iff the target does NOT match
+                # (a rule whose target does not match must not shadow the more general rule, on any path)
+                pol = {"algorithm": "deny-overrides", "rules": [dict(rule, effect="deny"),
+                                                               {"id": "any", "effect": "permit", "actions": ["read"], "resource": {"type": "*"}}]}
+            elif c["shape"] == "set":
                 pol = {"algorithm": "deny-overrides", "policies": [{"id": "p", **pol}]}
             elif c["shape"] == "nested":
                 pol = {"algorithm": "permit-overrides",
@@ -204,6 +209,11 @@ def check_cases(chk, cases, replay=False):
                               f"that has answered sibling requests (other attributes / id / type) answers {i[2]} for the "
                               f"same request; the target {'matches' if m is True else 'does not match'} (c05_applicable_only_if_target_matches, c05_engine_mode)",
                               c, impl=i, model=m)
+            elif c["shape"] == "shadow":
+                if isinstance(m, bool) and i != (not m):
+                    chk.violation(f"engine path with a wildcard permit behind a denying rule, strict={c['strict']}: allowed={i} "
+                                  f"but the denying rule's target {'matches' if m else 'does not match'} in that mode "
+                                  "(c05_applicable_only_if_target_matches, c05_engine_mode)", c, impl=i, model=m)
             elif i != m:
                 chk.violation(f"engine path {c['shape']} strict={c['strict']}: allowed={i} but the target "
                               f"{'matches' if m is True else 'does not match'} in that mode (c05_applicable_only_if_target_matches, c05_engine_mode)",
